@@ -6,13 +6,13 @@
    The space (d = [kind, hf, pl, pf, lay, body, imp, clash]):
      render : host format hf x placement pl (content / attribute value / <script>; the last two in
               HTML and Markdown hosts) x partial format pf x every body of <= MaxLen items over
-              ItemsAll; directory layouts 1..3 with the bodies of one R/V item
+              ItemsAll; directory layouts 1..3 with the bodies of one R/V item (content placement)
      call   : hf x pl x explicit result type pf of a local macro ("" = none) x bodies over ItemsNoK
      import : hf x pl x format pf of the imported file x bodies over ItemsNoK; the import forms
               `import x "m"` and `import "m" for K` and the layout with m in a sub-directory for
-              bodies of <= 1 item
+              bodies of <= 1 item (content placement)
      extends: (extending format hf, layout format pf) in the pairs the parser accepts x pl x bodies
-              over ItemsNoK; sub-directory layouts for bodies of <= 1 item; a layout that
+              over ItemsNoK; sub-directory layouts for bodies of <= 1 item (content placement); a layout that
               redeclares the macro (clash: both forms must fail to build)
      calib  : one text file per text atom (checks the atom table of Compose.tla)
    plus NSample seeded bodies of MaxLen + 1 items (render kind). *)
@@ -34,6 +34,7 @@ Secondary(d) == d.lay # 0 \/ d.imp \in {"ns", "for"}
 Ok(d) == /\ PlOk(d)
          /\ (d.kind = "import" /\ d.lay # 0) => d.imp = "plain"
          /\ d.clash => d.lay = 0
+         /\ Secondary(d) => d.pl = "text"        \* paths and import forms do not depend on the placement
 MaxLenOf(d) == IF d.clash THEN 0 ELSE IF Secondary(d) THEN 1 ELSE MaxLen
 ItemsOf(d) == IF d.kind = "render" THEN (IF d.lay # 0 THEN ItemsRV ELSE ItemsAll) ELSE ItemsNoK
 \* a layout other than the flat one is only interesting when the body refers to another file
@@ -78,7 +79,7 @@ Theorems ==
     /\ ThFixedMeetsRef(vs, R, Outs(vs, Fixed))
     /\ ThAsWrittenDeviatesOnlyIf(vs, R, Outs(vs, AsWritten))
     /\ ThRefDefined(vs, R)
-    /\ Mode = "all" => ThRenderFixLeavesOnlyTag(vs, R, Outs(vs, OnlyRenderFixed))
+    /\ (Mode = "all" /\ Len(c.body) <= 1) => ThRenderFixLeavesOnlyTag(vs, R, Outs(vs, OnlyRenderFixed))
 RefRelations == (c # Root /\ ModelDefined(c)) => LET vs == Variants(c) IN ThRefRelations(vs, Refs(vs))
 FixedMeetsRef == (c # Root /\ ModelDefined(c)) => LET vs == Variants(c) IN ThFixedMeetsRef(vs, Refs(vs), Outs(vs, Fixed))
 AsWrittenDeviatesOnlyIf == (c # Root /\ ModelDefined(c)) => LET vs == Variants(c) IN ThAsWrittenDeviatesOnlyIf(vs, Refs(vs), Outs(vs, AsWritten))
